@@ -106,6 +106,7 @@ def install(eng):
     eng.builtin_hooks['getattr'] = bi_getattr
     eng.builtin_hooks['next'] = bi_next
     eng.with_hooks['pool'] = with_pool
+    eng.with_hooks['file'] = with_pool       # `with open(..) as f:` - bind f, run the body (closing is not modelled)
     eng._products = {}
     eng._star_arg = None
     eng.attr_hooks[('module:Tags', '*')] = tags_module_attr
@@ -445,6 +446,7 @@ def bi_open(eng, args, kwargs, node):
     eng.used_assumption(FILES)
     name = args[0]
     f = eng.alloc(ty.TRef('File'), cls=z3.IntVal(eng.cls_id('File')))
+    f.ext_kind = 'file'
     log = z3.Function('file_log', I, I)
     eng.write_field(f, 'log', VRef(log(name.term), ty.parse('list[any]')))
     eng.write_field(f, 'mode', args[1] if len(args) > 1 else VStr(eng.ctx.strid('r'), 'r'))
@@ -456,6 +458,15 @@ def ext_file_write(eng, f, args, kwargs):
     lg = eng.read_field(f, 'log', ty.parse('list[any]'))
     eng.list_append(lg, args[0])
     return VNone()
+
+
+def ext_json_load(eng, selfv, args, kwargs):
+    """json.load(f): the parsed content of the file - an opaque value that is a function of the file's log (name)."""
+    eng.used_assumption('json.load(file) returns the parsed content of that file (a function of the file), nothing else')
+    f = args[0]
+    lg = eng.read_field(f, 'log', ty.parse('list[any]'))
+    g = z3.Function('json_content', I, I)
+    return VRef(g(lg.term), ty.ANY)
 
 
 def ext_file_close(eng, f, args, kwargs):
@@ -645,6 +656,7 @@ EXTERNALS = {
     'Logger.isEnabledFor': ext_logger_query, 'Logger.hasHandlers': ext_logger_query,
     'Logger.getEffectiveLevel': ext_logger_level,
     'logging.getLogger': ext_get_logger,
+    'json.load': ext_json_load,
     'logging.INFO': None,
     'random.Random': ext_random_new,
 }
